@@ -65,6 +65,15 @@ def judge(ctx, r):
             if t not in live:
                 ctx.fail(f"{r.desc} step {i}: property assignment succeeded but the block is absent", rep, ident="setter lost block")
                 return
+            # "assigning through a convenience property replaces the existing block": what is stored now is what was assigned,
+            # bit for bit - however little it differs from what was there before
+            arg = s.get("arg")
+            stored = next((bytes.fromhex(e[8]) for e in a["live"] if e[1] == t), None)
+            if arg is not None and isinstance(arg[3], (bytes, bytearray)) and stored != bytes(arg[3]):
+                was = next((bytes.fromhex(e[8]) for e in b["live"] if e[1] == t), None) if b else None
+                ctx.fail(f"{r.desc} step {i}: property assignment of type {t} succeeded but the file does not hold the block that was assigned"
+                         + (" (it still holds the old one)" if stored == was else ""), rep, ident="setter did not install the block")
+                return
         acc = s["extra"].get("acc")
         if not acc:
             continue
